@@ -1,4 +1,430 @@
 import LasioModel.Basic
-/- Data model (to be filled in) -/
-namespace Lasio
-end Lasio
+/-
+Model of the DATA-SECTION part of `LASFile.read` (las.py, from `line_splitter = reader.define_line_splitter(...)`
+to the end of the `try`) and of the functions of reader.py it calls:
+`define_line_splitter`, `inspect_data_section`, `read_data_section_iterative_normal_engine`,
+`read_data_section_iterative_numpy_engine` (through a specification of `numpy.genfromtxt` as lasio calls it),
+`get_substitutions` for the modelled policies.
+
+Binary64 conversion is NOT modelled: the model is parametric in a table `token text ↦ canonical float text`.
+-/
+namespace Lasio.Dt
+
+/-! ## floats as a trusted service -/
+
+/-- token text ↦ canonical float text (`float.hex()` for finite values, `"nan"`, `"inf"`, `"-inf"`);
+tokens rejected by Python's `float()` are absent -/
+abbrev FloatTable := List (Str × Str)
+
+def toFloat (ft : FloatTable) (tok : Str) : Option Str := ft.lookup tok
+
+def nanTxt : Str := "nan".toList
+def zeroPos : Str := "0x0.0p+0".toList
+def zeroNeg : Str := "-0x0.0p+0".toList
+def isZeroTxt (a : Str) : Bool := a == zeroPos || a == zeroNeg
+
+/-- IEEE `==` on canonical float texts -/
+def feq (a b : Str) : Bool := a != nanTxt && (a == b || (isZeroTxt a && isZeroTxt b))
+
+/-! ## `re.sub` with leftmost, non-overlapping matches -/
+
+/-- `\d` of a `str` pattern on the modelled alphabet: ASCII, Arabic-Indic and full-width digits -/
+def isUDigit (c : Char) : Bool :=
+  let n := c.toNat
+  (48 ≤ n && n ≤ 57) || (0x660 ≤ n && n ≤ 0x669) || (0xFF10 ≤ n && n ≤ 0xFF19)
+
+/-- Generic scanner.  `m s` tells whether the pattern matches at the head of `s`: `some (replacement, k)` means a match of
+length `k + 1`.  The first argument counts the characters of the current match still to be skipped. -/
+def reSub (m : Str → Option (Str × Nat)) : Nat → Str → Str
+  | _, [] => []
+  | skip + 1, _ :: cs => reSub m skip cs
+  | 0, c :: cs =>
+    match m (c :: cs) with
+    | some (rep, k) => rep ++ reSub m k cs
+    | none => c :: reSub m 0 cs
+
+/-- `(\d),(\d)` → `\1.\2` -/
+def mComma : Str → Option (Str × Nat)
+  | a :: ',' :: b :: _ => if isUDigit a && isUDigit b then some ([a, '.', b], 2) else none
+  | _ => none
+
+/-- `(\d)-(\d)` → `\1 -\2` -/
+def mHyphen : Str → Option (Str × Nat)
+  | a :: '-' :: b :: _ => if isUDigit a && isUDigit b then some ([a, ' ', '-', b], 2) else none
+  | _ => none
+
+/-- length of a match of `-?\d*\.\d*\.\d*` at the head (the regex has no backtracking choice that can succeed
+differently: every `\d*` must take the whole digit run because a literal `.` follows) -/
+def mDotAlt1 (s : Str) : Option Nat :=
+  let neg := match s with | '-' :: _ => 1 | _ => 0
+  let s1 := s.drop neg
+  let d1 := (s1.takeWhile isUDigit).length
+  match s1.dropWhile isUDigit with
+  | '.' :: s3 =>
+    let d2 := (s3.takeWhile isUDigit).length
+    match s3.dropWhile isUDigit with
+    | '.' :: s5 => some (neg + d1 + 1 + d2 + 1 + (s5.takeWhile isUDigit).length)
+    | _ => none
+  | _ => none
+
+/-- length of a match of `NaN[\.-]\d+` at the head -/
+def mDotAlt2 : Str → Option Nat
+  | 'N' :: 'a' :: 'N' :: p :: d :: rest =>
+    if (p == '.' || p == '-') && isUDigit d then some (5 + (rest.takeWhile isUDigit).length) else none
+  | _ => none
+
+def nanNan : Str := " NaN NaN ".toList
+
+/-- `-?\d*\.\d*\.\d*|NaN[\.-]\d+` → `" NaN NaN "` -/
+def mDot (s : Str) : Option (Str × Nat) :=
+  match mDotAlt1 s with
+  | some n => some (nanNan, n - 1)
+  | none =>
+    match mDotAlt2 s with
+    | some n => some (nanNan, n - 1)
+    | none => none
+
+def subCommaDecimal (s : Str) : Str := reSub mComma 0 s
+def subRunOnHyphen (s : Str) : Str := reSub mHyphen 0 s
+def subRunOnDot (s : Str) : Str := reSub mDot 0 s
+
+/-- which of the three READ_SUBS are active (always applied in the order comma, hyphen, dot) -/
+structure Subs where
+  comma : Bool
+  hyphen : Bool
+  dot : Bool
+deriving DecidableEq, Repr
+
+/-- READ_POLICIES["default"] -/
+def Subs.default : Subs := ⟨true, true, true⟩
+/-- READ_POLICIES["comma-delimiter"] (its third key has no entry in READ_SUBS) -/
+def Subs.commaDelimiter : Subs := ⟨false, true, true⟩
+/-- removal of HYPHEN_SUBS -/
+def Subs.dropHyphen (s : Subs) : Subs := { s with hyphen := false }
+
+def applySubs (sb : Subs) (s : Str) : Str :=
+  let s := if sb.comma then subCommaDecimal s else s
+  let s := if sb.hyphen then subRunOnHyphen s else s
+  if sb.dot then subRunOnDot s else s
+
+/-! ## the three line splitters -/
+
+inductive Dlm | space | tab | comma
+deriving DecidableEq, Repr
+
+/-- Generic `findall` scanner: `m s = some (tok, k)` is a match of length `k + 1` at the head giving token `tok`. -/
+def scanTok (m : Str → Option (Str × Nat)) : Nat → Str → List Str
+  | _, [] => []
+  | skip + 1, _ :: cs => scanTok m skip cs
+  | 0, c :: cs =>
+    match m (c :: cs) with
+    | some (tok, k) => tok :: scanTok m k cs
+    | none => scanTok m 0 cs
+
+/-- the text up to the next `q`, when there is one -/
+def findClose (q : Char) : Str → Option Str
+  | [] => none
+  | c :: cs => if c == q then some [] else (findClose q cs).map (c :: ·)
+
+/-- one match of `([^S"']+)|"([^"]*)"|'([^']*)'` at the head (`S` = the separator class); `"".join(groups)` is the token -/
+def mSplit (isSep : Char → Bool) : Str → Option (Str × Nat)
+  | [] => none
+  | c :: cs =>
+    if c == '"' || c == '\'' then
+      match findClose c cs with
+      | some t => some (t, t.length + 1)
+      | none => none
+    else if isSep c then none
+    else
+      let t := cs.takeWhile (fun x => !(isSep x || x == '"' || x == '\''))
+      some (c :: t, t.length)
+
+/-- `sow_regex.findall` -/
+def splitWs (s : Str) : List Str := scanTok (mSplit isPySpace) 0 s
+/-- `sot_regex.findall` -/
+def splitTab (s : Str) : List Str := scanTok (mSplit (· == '\t')) 0 s
+
+/-- `str.split(",")` -/
+def splitOnChar (ch : Char) : Str → List Str
+  | [] => [[]]
+  | c :: cs =>
+    if c == ch then [] :: splitOnChar ch cs
+    else
+      match splitOnChar ch cs with
+      | t :: ts => (c :: t) :: ts
+      | [] => [[c]]
+
+def splitComma (s : Str) : List Str := splitOnChar ',' s
+
+def splitLine : Dlm → Str → List Str
+  | .space => splitWs
+  | .tab => splitTab
+  | .comma => splitComma
+
+/-- `str.split()` (used by `genfromtxt`) -/
+def mWord : Str → Option (Str × Nat)
+  | [] => none
+  | c :: cs =>
+    if isPySpace c then none
+    else
+      let t := cs.takeWhile (fun x => !isPySpace x)
+      some (c :: t, t.length)
+
+def pySplit (s : Str) : List Str := scanTok mWord 0 s
+
+/-! ## windows -/
+
+/-- `line.strip("\n").strip()` -/
+def cleanLine (ln : Str) : Str := strip (stripChar '\n' ln)
+
+def isComment (l : Str) : Bool := startsWith ['#'] l
+
+/-- The lines visited by a loop `for line in file_obj: …; if line_no == last: break` started after the title line
+`first`: the `last - first` lines after the title, or everything up to the end of the file when `last ≤ first`
+(the test `line_no == last` is then never true). -/
+def bodyLines (lines : List Str) (first last : Nat) : List Str :=
+  let rest := lines.drop (first + 1)
+  if first < last then rest.take (last - first) else rest
+
+/-! ## `inspect_data_section` -/
+
+/-- the sampled form of a line: only non-blank non-comment lines are sampled -/
+def sampleLine (ln : Str) : Option Str :=
+  let l := cleanLine ln
+  if l.isEmpty || isComment l then none else some l
+
+/-- `len(set(item_counts)) == 1` -/
+def consistent : List Nat → Option Nat
+  | [] => none
+  | n :: rest => if rest.all (· == n) then some n else none
+
+structure SniffResult where
+  /-- `some n`: n columns everywhere in the sample; `none`: the `-1` answer -/
+  count : Option Nat
+  /-- `len(hyphen_exists) == len(item_counts)`: every sampled line has a hyphen (true for an empty sample) -/
+  hyphenFired : Bool
+deriving DecidableEq, Repr
+
+/-- `inspect_data_section` called with the cursor on the title line `first`: up to 21 data lines of the window are sampled -/
+def sniffColumns (sb : Subs) (dlm : Dlm) (lines : List Str) (first last : Nat) : SniffResult :=
+  let sampled := ((bodyLines lines first last).filterMap sampleLine).take 21
+  { count := consistent (sampled.map fun l => (splitLine dlm (applySubs sb l)).length),
+    hyphenFired := sampled.all (fun l => l.contains '-') }
+
+/-! ## the normal engine -/
+
+inductive DErr | reshapeError | indexError | other
+deriving DecidableEq, Repr
+
+inductive Column
+  | floats (cells : List Str)
+  | text (cells : List Str)
+deriving DecidableEq, Repr
+
+def Column.length : Column → Nat
+  | .floats c => c.length
+  | .text c => c.length
+
+def ctrlZ : Char := Char.ofNat 26
+
+/-- the items one physical line contributes to the flat array -/
+def lineTokens (sb : Subs) (dlm : Dlm) (ln : Str) : List Str :=
+  let l := cleanLine ln
+  if isComment l then []
+  else
+    let l2 := (applySubs sb l).filter (· != ctrlZ)
+    if l2.isEmpty then [] else splitLine dlm l2
+
+def normalTokens (sb : Subs) (dlm : Dlm) (body : List Str) : List Str :=
+  body.flatMap (lineTokens sb dlm)
+
+/-- rows of `c` cells (`np.reshape(array, (-1, c))` for a length divisible by `c > 0`); the first argument is fuel -/
+def chunk {α} (c : Nat) : Nat → List α → List (List α)
+  | 0, _ => []
+  | fuel + 1, l => if l.isEmpty then [] else l.take c :: chunk c fuel (l.drop c)
+
+def reshape {α} (c : Nat) (l : List α) : List (List α) := chunk c l.length l
+
+/-- column `j` of a list of rows -/
+def columnOf (rows : List (List Str)) (j : Nat) : List Str := rows.map (fun r => r.getD j [])
+
+def columnsOf (c : Nat) (rows : List (List Str)) : List (List Str) := (List.range c).map (columnOf rows)
+
+/-- all cells as floats, when every token converts -/
+def floatCells (ft : FloatTable) : List Str → Option (List Str)
+  | [] => some []
+  | t :: ts =>
+    match toFloat ft t, floatCells ft ts with
+    | some v, some vs => some (v :: vs)
+    | _, _ => none
+
+/-- dtype from the first row and `astype`, which keeps the column as it is when it fails: the column is a float column
+exactly when every token of it converts -/
+def typedColumn (ft : FloatTable) (toks : List Str) : Column :=
+  match floatCells ft toks with
+  | some vs => .floats vs
+  | none => .text toks
+
+/-- `read_data_section_iterative_normal_engine` on the visited lines, with `dtypes="auto"` and no value substitutions -/
+def normalEngineLines (ft : FloatTable) (sb : Subs) (dlm : Dlm) (nColumns : Nat) (body : List Str) :
+    Except DErr (List Column) :=
+  let toks := normalTokens sb dlm body
+  let n := if toks.isEmpty then 0 else nColumns
+  if n > 0 then
+    if toks.length % n != 0 then .error .reshapeError
+    else .ok ((columnsOf n (reshape n toks)).map (typedColumn ft))
+  else if toks.isEmpty then .ok []
+  else .error .indexError
+
+def normalEngine (ft : FloatTable) (sb : Subs) (dlm : Dlm) (nColumns : Nat) (lines : List Str) (first last : Nat) :
+    Except DErr (List Column) :=
+  normalEngineLines ft sb dlm nColumns (bodyLines lines first last)
+
+/-! ## the numpy engine: specification of `np.genfromtxt(f, skip_header, max_rows, unpack=True, loose=False, ndmin=2)` -/
+
+/-- cut at `#`, split on whitespace -/
+def npTokens (ln : Str) : List Str := pySplit (ln.takeWhile (· != '#'))
+
+/-- Collect rows of `c` tokens until `budget` rows are stored; lines without tokens are skipped and not counted;
+a line with another number of tokens is an error (`none`). -/
+def npCollect (c : Nat) : Nat → List Str → Option (List (List Str))
+  | 0, _ => some []
+  | _, [] => some []
+  | b + 1, ln :: rest =>
+    let t := npTokens ln
+    if t.isEmpty then npCollect c (b + 1) rest
+    else if t.length != c then none
+    else (npCollect c b rest).map (t :: ·)
+
+/-- the number of tokens of the first line that has tokens -/
+def npFirstCount : List Str → Option Nat
+  | [] => none
+  | ln :: rest => let t := npTokens ln; if t.isEmpty then npFirstCount rest else some t.length
+
+def allFloatCols (ft : FloatTable) : List (List Str) → Option (List Column)
+  | [] => some []
+  | col :: cols =>
+    match floatCells ft col, allFloatCols ft cols with
+    | some vs, some r => some (.floats vs :: r)
+    | _, _ => none
+
+/-- `genfromtxt` on the lines after the title with `max_rows`; `none` = an exception (caught by lasio) -/
+def numpyEngineLines (ft : FloatTable) (maxRows : Nat) (rest : List Str) : Option (List Column) :=
+  if maxRows < 1 then none
+  else
+    match npFirstCount rest with
+    | none => some [.floats []]            -- empty input: shape (1, 0), one empty column
+    | some c =>
+      match npCollect c maxRows rest with
+      | none => none
+      | some rows => allFloatCols ft (columnsOf c rows)
+
+/-- `read_data_section_iterative_numpy_engine`: `skip_header = first + 1`, `max_rows = last - first` -/
+def numpyEngine (ft : FloatTable) (lines : List Str) (first last : Nat) : Option (List Column) :=
+  numpyEngineLines ft (last - first) (lines.drop (first + 1))
+
+/-! ## NULL and the assignment to curves -/
+
+/-- `curve_arr[curve_arr == null] = nan` -/
+def nullCells (null : Str) (cells : List Str) : List Str :=
+  cells.map fun v => if feq v null then nanTxt else v
+
+/-- one column at curve index `idx` -/
+def applyNullCol (useNull : Bool) (null : Option Str) (idx : Nat) (col : Column) : Column :=
+  match col, null with
+  | .floats cells, some nv => if useNull && idx != 0 then .floats (nullCells nv cells) else col
+  | _, _ => col
+
+def applyNullFrom (useNull : Bool) (null : Option Str) : Nat → List Column → List Column
+  | _, [] => []
+  | idx, c :: cs => applyNullCol useNull null idx c :: applyNullFrom useNull null (idx + 1) cs
+
+/-- header NULL → NaN in every float column except column 0, when the null policy contains "NULL" -/
+def applyNull (useNull : Bool) (null : Option Str) (cols : List Column) : List Column :=
+  applyNullFrom useNull null 0 cols
+
+/-- which curve a column lands in -/
+inductive Slot
+  | declared (j : Nat)   -- the j-th curve of ~Curves (metadata untouched)
+  | extra                -- a new `CurveItem(mnemonic="")` appended after the existing ones
+deriving DecidableEq, Repr
+
+def assignFrom (d : Nat) : Nat → List Column → List (Slot × Column)
+  | _, [] => []
+  | idx, c :: cs => ((if idx < d then .declared idx else .extra), c) :: assignFrom d (idx + 1) cs
+
+def nanColumn (len : Nat) : Column := .floats (List.replicate len nanTxt)
+
+/-- `curve_length`: the length of the first column (0 when there is none) -/
+def curveLength : List Column → Nat
+  | [] => 0
+  | c :: _ => c.length
+
+/-- columns in order to curves 0, 1, …; surplus columns become extra curves; declared curves without a column are NaN -/
+def assignCurves (d : Nat) (cols : List Column) : List (Slot × Column) :=
+  assignFrom d 0 cols ++
+    (List.range' cols.length (d - cols.length)).map fun j => (.declared j, nanColumn (curveLength cols))
+
+/-! ## top level -/
+
+inductive Engine | numpy | normal
+deriving DecidableEq, Repr
+
+inductive NullPolicy | strict | none
+deriving DecidableEq, Repr
+
+structure DataOpts where
+  engine : Engine
+  nullPolicy : NullPolicy
+deriving DecidableEq, Repr
+
+/-- what the header says that steers the data reader -/
+structure Steer where
+  /-- a WRAP item was present in ~Version -/
+  wrapDeclared : Bool
+  /-- the provisional WRAP value (`"YES"` when not declared) -/
+  wrapped : Str
+  /-- the ~Well NULL value as a float text, when it is a number -/
+  nullValue : Option Str
+  delimiter : Dlm
+deriving DecidableEq, Repr
+
+def yesTxt : Str := "YES".toList
+
+def readSubs : Dlm → Subs
+  | .comma => Subs.commaDelimiter
+  | _ => Subs.default
+
+/-- the engine after the override for wrapped files / non-strict null policies -/
+def effectiveEngine (o : DataOpts) (st : Steer) : Engine :=
+  if st.wrapped == yesTxt || o.nullPolicy != .strict then .normal else o.engine
+
+/-- the substitutions after the (at most one) accepted recommendation, and the sniffed column count -/
+def sniffTwice (sb : Subs) (dlm : Dlm) (lines : List Str) (first last : Nat) : Subs × Option Nat :=
+  let r1 := sniffColumns sb dlm lines first last
+  if r1.hyphenFired && sb.dropHyphen != sb then
+    (sb.dropHyphen, (sniffColumns sb.dropHyphen dlm lines first last).count)
+  else (sb, r1.count)
+
+/-- `reader_n_columns` -/
+def readerColumns (st : Steer) (declared : Nat) (sniffed : Option Nat) : Nat :=
+  let n := match sniffed with | some n => n | none => declared
+  if st.wrapDeclared && st.wrapped == yesTxt && declared > 0 then declared else n
+
+/-- the data-section part of `LASFile.read` for one data section with window `(first, last)` -/
+def readData (o : DataOpts) (lines : List Str) (first last : Nat) (st : Steer) (declared : Nat) (ft : FloatTable) :
+    Except DErr (Engine × List (Slot × Column)) :=
+  let dlm := st.delimiter
+  let (sb, sniffed) := sniffTwice (readSubs dlm) dlm lines first last
+  let nCols := readerColumns st declared sniffed
+  let useNull := o.nullPolicy == .strict
+  let finish (e : Engine) (cols : List Column) : Engine × List (Slot × Column) :=
+    (e, assignCurves declared (applyNull useNull st.nullValue cols))
+  match effectiveEngine o st with
+  | .numpy =>
+    match numpyEngine ft lines first last with
+    | some cols => .ok (finish .numpy cols)
+    | none => (normalEngine ft sb dlm nCols lines first last).map (finish .normal)
+  | .normal => (normalEngine ft sb dlm nCols lines first last).map (finish .normal)
+
+end Lasio.Dt
